@@ -187,7 +187,8 @@ def unit_fn(unit):
                         elif float((tot - full).abs().max()) > 1e-11 * max(1.0, float(full.abs().max())):
                             bad('additivity', f"increments over ts={tsl} sum to {tot.tolist()}, over [0,1] the value is "
                                 f"{full.tolist()}")
-                        out.keys.add((zoo.cell_name(cell), pname, tuple(tsl), dt))
+                        if float(lq.sum()) > 1e-9:  # non-trivial: a strictly positive KL integrand was accumulated
+                            out.keys.add((zoo.cell_name(cell), pname, tuple(tsl), dt))
                         out.sample(label, limit=1)
         # exact family: f - h = g c
         for c in ([0.7, -0.4, 1.1], [0., 0., 0.], [2.0, 0.5, -1.0]):
@@ -210,7 +211,7 @@ def unit_fn(unit):
                                   f"f-h=g c with c={c}: logqp {lq[:, 0].tolist()} != 1/2|c|^2 dt = {want.tolist()} "
                                   f"(err {err})", dict(engine='C-c18', cell=zoo.cell_name(cell), c=c, ts=tsl, dt=dt,
                                                        entropy=unit['entropy']))
-                else:
+                elif any(c):
                     out.keys.add(('exact', zoo.cell_name(cell), tuple(c), tuple(tsl), dt))
     return out.pack()
 
@@ -220,7 +221,7 @@ def run(tier, seed):
                 rule="every supported cell x all subsets of {0.25,0.5,0.75} as interior output times x dt in "
                      "{1/4,1/8,0.3}: shape, non-negativity, additivity, equality with the harness-built augmented "
                      "system under the same solver and noise, state trajectory torch.equal to the run without logqp; "
-                     "exact family f-h=g c for 3 constant vectors c; distinct (cell, program, ts, dt)")
+                     "exact family f-h=g c for 3 constant vectors c (incl. c=0 and mixed-sign diagonal g); non-trivial = distinct (cell, program, ts, dt) with a strictly positive accumulated integrand, exact-family cases with c != 0")
     units = [dict(cell=list(c), entropy=180 + seed, nprog=1 if tier == 'quick' else 2) for c in zoo.cells()]
     for part in pmap(unit_fn, units):
         chk.merge(part)
